@@ -71,6 +71,8 @@ def check_result(c, label, r, ref, CSI, bits=None):
     """ref (z3 term: Bool or BitVec) must be contained in the abstract result r"""
     from claripy.backends.backend_vsa.bool_result import BoolResult
     if z3.is_bool(ref):
+        if isinstance(r, bool):
+            r = BoolResult((r,))          # the backend's own queries (BoolResult.is_true / has_true ...) read a Python bool as a definite answer
         if not isinstance(r, BoolResult):
             c.fail(label + "/type", f"Boolean operation returned {type(r).__name__}")
             return
@@ -107,7 +109,7 @@ BIN = set(sem.BV_BIN) | set(sem.BV_CMP) | {"__eq__", "__ne__"}
 UN = set(sem.BV_UN)
 
 
-def ob_dispatch(op, w, tier="quick", arity=2):
+def ob_dispatch(op, w, tier="quick", arity=2, bool_operands=False):
     ns, B = load_backend()
     CSI = absval.load()
     from claripy.errors import BackendError
@@ -115,7 +117,12 @@ def ob_dispatch(op, w, tier="quick", arity=2):
 
     def body(c):
         zargs, args = [], []
-        if op in NARY or op in BIN:
+        if bool_operands:
+            # == / != between two Boolean expressions (the AST operation is the same as for bit-vectors; the operands are abstract truth values)
+            for i in range(2):
+                r, b = sym_boolresult(f"b{i}")
+                args.append(r); zargs.append(b)
+        elif op in NARY or op in BIN:
             n = arity if op in NARY else 2
             for i in range(n):
                 a = absval.sym(f"a{i}", w)
@@ -487,7 +494,17 @@ def replay(task, failure):
     try:
         if fn == "ob_dispatch":
             op = kw["op"]
-            if op in NARY or op in BIN:
+            if kw.get("bool_operands"):
+                x = __import__("claripy").BVS("x", 8)
+                for (ra, va), (rb, vb) in itertools.product(bools, bools):
+                    r = B._call(op, [ra, rb])
+                    rv = (r,) if isinstance(r, bool) else tuple(r.value)
+                    for p, q in itertools.product(va, vb):
+                        v = (p == q) if op == "__eq__" else (p != q)
+                        if v not in rv:
+                            return bad(f"vsa._call({op!r}, [BoolResult{tuple(ra.value)}, BoolResult{tuple(rb.value)}]) = {r!r}: the operands can be {p} and {q}, "
+                                       f"which gives {v}; e.g. claripy.backends.vsa.is_true((x > 3) == (x > 5)) answers True although x = 4 makes it False")
+            elif op in NARY or op in BIN:
                 for a, b in itertools.product(pool, pool):
                     try:
                         r = B._call(op, [a, b])
